@@ -32,7 +32,7 @@ WFILE_UNWIND = {
 
 
 NAMETAG = {0: "log", 1: "manifest", 2: "manifest-cwd", 3: "manifest-root", 4: "table-in-manifestdir", 5: "manifest-dslash"}
-OPTAG = {1: "append", 2: "flush", 3: "sync", 4: "close-destroy", 5: "destroy"}
+OPTAG = {1: "append", 2: "flush", 3: "sync", 4: "close-destroy", 5: "destroy", 6: "create"}
 OPDESC = {
     1: "ONE ldb_wfile_append of a symbolic size 0..140000 from an arbitrary valid state (pos 0..65536): write(2) continues the accepted "
        "image exactly (in order, gap-free, nothing twice), memcpy stays in the buffer and in the caller's slice, short writes/EINTR "
@@ -45,10 +45,12 @@ OPDESC = {
     4: "ONE ldb_wfile_close + ldb_wfile_destroy from an arbitrary valid state: flush, then close(2) exactly once also when the flush "
        "failed; error of flush or else of close(2) returned",
     5: "ldb_wfile_destroy without close: descriptor closed exactly once",
+    6: "create alone: open(2) flags/mode (O_TRUNC resp. O_APPEND, never both wrong), EINTR retried, EINVAL retried without O_CLOEXEC "
+       "+ FD_CLOEXEC by fcntl, failure returned as errno with no object and no descriptor left; MANIFEST detection; destroy closes once",
 }
 
 
-def _wstep(prefix, op, name, fdatasync, appendmode=0, intrs=2, shorts=2, tier="quick", timeout=300):
+def _wstep(prefix, op, name, fdatasync, appendmode=0, intrs=1, shorts=1, tier="quick", timeout=300):
     defs = {"VP_OP": op, "VP_NAME": name, "VP_INTRS": intrs, "VP_SHORTS": shorts, "VP_APPENDMODE": appendmode}
     nm = "%s.wfile-step-%s-%s-%s%s" % (prefix, OPTAG[op], NAMETAG[name], "fdatasync" if fdatasync else "fsync",
                                        "-appendfile" if appendmode else "")
@@ -56,7 +58,7 @@ def _wstep(prefix, op, name, fdatasync, appendmode=0, intrs=2, shorts=2, tier="q
     uw.update({"ldb_open.0": intrs + 2, "ldb_write.0": intrs + 2, "ldb_write.1": shorts + 2, "ldb_fsync.0": intrs + 2})
     return Obl(nm, "envunix/wfile.c", real=REAL, include_real=["util/env.c", "util/env_unix_impl.h"], kit=KIT,
                defs=defs, real_defs=(POSIX_DEFS if fdatasync else {}),
-               unwind=VP_UNWIND, unwindset=uw, timeout=timeout, tier=tier, functions=WFILE_FUNCS,
+               unwind=VP_UNWIND, unwindset=uw, sat="cadical", timeout=timeout, tier=tier, functions=WFILE_FUNCS,
                desc="real create (%s) establishes the invariant; then %s" % (
                    "ldb_appendfile_create" if appendmode else "ldb_truncfile_create", OPDESC[op]),
                bounds="inductive step: file name %r; state before the step arbitrary within the invariant (pos 0..65536, <=1000 bytes "
@@ -76,7 +78,7 @@ def _wseq(prefix, name, k, fdatasync, sizes, appendmode=0, intrs=1, shorts=1, ti
     uw.update({"ldb_open.0": intrs + 2, "ldb_write.0": intrs + 2, "ldb_write.1": shorts + 2, "ldb_fsync.0": intrs + 2})
     return Obl(nm, "envunix/wfile.c", real=REAL, include_real=["util/env.c", "util/env_unix_impl.h"], kit=KIT,
                defs=defs, real_defs=(POSIX_DEFS if fdatasync else {}),
-               unwind=VP_UNWIND, unwindset=uw, timeout=timeout, tier=tier, functions=WFILE_FUNCS,
+               unwind=VP_UNWIND, unwindset=uw, sat="cadical", timeout=timeout, tier=tier, functions=WFILE_FUNCS,
                desc="whole run create -> appends -> flush/sync -> close -> destroy: bytes accepted by write(2) are the appended stream "
                     "in order, gap-free, never twice; errors returned; exact resynchronisation after a failed write; sync ordering; "
                     "descriptor closed exactly once",
@@ -97,6 +99,8 @@ def wfile_obls(prefix):
                     continue    # append/flush do not depend on the name class; keep one cross-configuration
                 out.append(_wstep(prefix, op, name, fds))
     out.append(_wstep(prefix, 5, 0, 1))
+    for name in (0, 1, 2, 3, 4, 5):
+        out.append(_wstep(prefix, 6, name, 1, appendmode=name & 1, intrs=2))
     out.append(_wstep(prefix, 1, 0, 1, appendmode=1))
     # other spellings of the name: only sync depends on it
     for name in (2, 3, 4, 5):
